@@ -199,9 +199,9 @@ Proof.
   unfold entry_add. destruct vs as [|p vs']; intro H.
   - inversion H; subst. cbn. lia.
   - destruct (negb (N.eqb (evtype e) 0) && negb (all_type (evtype e) (p :: vs'))); [discriminate|].
-    destruct (evals e) as [|q l] eqn:El; inversion H; subst; cbn [evals].
-    + cbn. lia.
-    + cbn [vals_size app]. rewrite vals_size_app. cbn [vals_size]. lia.
+    destruct (evals e) as [|q l] eqn:El.
+    + destruct (all_type (ptype p) (p :: vs')); [|discriminate]. inversion H; subst. cbn. lia.
+    + inversion H; subst. cbn [evals vals_size app]. rewrite vals_size_app. cbn [vals_size]. lia.
 Qed.
 Lemma new_entry_size vs e : new_entry vs = Some e -> vals_size (evals e) = vals_size vs.
 Proof.
@@ -535,18 +535,32 @@ Qed.
 Lemma rejected_iff st k vs :
   rejected st (k, vs) = true <->
   match find_e k st with
-  | Some e => vs <> [] /\ evtype e <> 0%N /\ all_type (evtype e) vs = false
+  | Some e => exists p r, vs = p :: r /\
+                ((evtype e <> 0%N /\ all_type (evtype e) vs = false) \/
+                 (evals e = [] /\ all_type (ptype p) vs = false))
   | None => exists p r, vs = p :: r /\ all_type (ptype p) vs = false
   end.
 Proof.
   unfold rejected, key_write. cbn [fst snd]. destruct (find_e k st) as [e|].
   - unfold entry_add. destruct vs as [|p r]; cbn [is_none].
-    + split; [discriminate|]. intros [H _]. congruence.
+    + split; [discriminate|]. intros (p & r & H & _). discriminate.
     + destruct (N.eqb (evtype e) 0) eqn:E0; cbn [negb andb].
-      * apply N.eqb_eq in E0. destruct (evals e); cbn [is_none]; split; try discriminate; intros (_ & H & _); congruence.
+      * apply N.eqb_eq in E0. destruct (evals e) as [|q l] eqn:El.
+        -- destruct (all_type (ptype p) (p :: r)) eqn:A; cbn [is_none].
+           ++ split; [discriminate|]. intros (p' & r' & H & [[H1 _]|[_ H2]]); [congruence|].
+              inversion H; subst. congruence.
+           ++ split; [|reflexivity]. intros _. exists p, r. split; [reflexivity|]. right. split; [reflexivity|exact A].
+        -- cbn [is_none]. split; [discriminate|].
+           intros (p' & r' & H & [[H1 _]|[H2 _]]); [congruence|discriminate].
       * apply N.eqb_neq in E0. destruct (all_type (evtype e) (p :: r)) eqn:A; cbn [negb].
-        -- destruct (evals e); cbn [is_none]; split; try discriminate; intros (_ & _ & H); discriminate.
-        -- cbn [is_none]. split; [|reflexivity]. intros _. repeat split; [discriminate|assumption].
+        -- destruct (evals e) as [|q l] eqn:El.
+           ++ destruct (all_type (ptype p) (p :: r)) eqn:A2; cbn [is_none].
+              ** split; [discriminate|]. intros (p' & r' & H & [[_ H1]|[_ H2]]); [discriminate|].
+                 inversion H; subst. congruence.
+              ** split; [|reflexivity]. intros _. exists p, r. split; [reflexivity|]. right. split; [reflexivity|exact A2].
+           ++ cbn [is_none]. split; [discriminate|].
+              intros (p' & r' & H & [[_ H1]|[H2 _]]); discriminate.
+        -- cbn [is_none]. split; [|reflexivity]. intros _. exists p, r. split; [reflexivity|]. left. split; [exact E0|reflexivity].
   - unfold new_entry. destruct vs as [|p r]; cbn [is_none].
     + split; [discriminate|]. intros (p & r & H & _). discriminate.
     + destruct (all_type (ptype p) (p :: r)) eqn:A; cbn [is_none].
